@@ -261,17 +261,22 @@ class C13Monitor:
                               {"kind": kind, "count": n})
                 break
         # double registration must be refused
+        # (every hook of every event, also the second and later ones of an event, once the run is over)
         for event, hooks in self.hooks.items():
-            if hooks:
+            for i, h in enumerate(hooks):
                 try:
-                    self.sim._add_event(hooks[0])
+                    self.sim._add_event(h)
                 except ValueError:
                     res.count("class/double_registration_refused")
+                    if i > 0:
+                        res.count("class/double_registration_of_a_later_hook_refused")
                 except Exception as e:  # noqa
                     res.count("double_registration_other_exception:" + type(e).__name__)
                 else:
-                    res.violation("register-once", "hook-registered-twice-without-error", {"event": event.name})
-                break
+                    res.violation("register-once", "hook-registered-twice-without-error",
+                                  {"event": event.name, "hook_number_of_the_event": i,
+                                   "hook": getattr(h, "spec", None)})
+                    return fired_any, filtered_any
         return fired_any, filtered_any
 
 
